@@ -283,6 +283,9 @@ func main() {
 	if r.Replay != "" {
 		var c Case
 		r.LoadReplay(&c)
+		if len(c.Ops) > 0 {
+			replayMulti(r, c)
+		}
 		if c.D2 != nil && c.Q2 != nil {
 			pp := preparePair(c.Level, c.D, *c.D2)
 			o, ok := pp.execute(c.Q, *c.Q2)
@@ -439,11 +442,13 @@ func main() {
 			r.Outcome(k, v)
 		}
 	})
+	// multi-operation sweep: same name, same location, different declarations in one API
+	multiSweep(r)
 	r.Assume("the reference (props/c03/ref.go) lists what every text of the alphabet denotes; spellings, empty texts and absent optional parameters that the property text does not settle are three-valued (MAY) and never reported",
 		"requests are rendered as HTTP/1.1 text and parsed by net/http.ReadRequest; header field values lose surrounding blanks there (HTTP), every other location is escaped by the renderer and arrives unchanged",
 		"statuses at the map/struct level are derived from the binder's error the way go-openapi/errors.ServeError does (first nested error, codes >= 600 answer 422)")
 	pprof.StopCPUProfile()
-	r.Finish("every declaration of the stated product x every request of the stated presence/text sets, at each level; one evaluation = one Bind call or one request through the handler stack on the real code, compared with the reference; non-trivial = the property text forces the outcome of the case (MUST bind exactly one of the listed values, or MUST be 422) so the comparison can fail both ways; distinct by construction: the enumerators never repeat a (level, declaration, request) triple", true)
+	r.Finish("every declaration of the stated product x every request of the stated presence/text sets, at each level; one evaluation = one Bind call or one request through the handler stack on the real code, compared with the reference; non-trivial = the property text forces the outcome of the case (MUST bind exactly one of the listed values, or MUST be 422) so the comparison can fail both ways; distinct by construction: the enumerators never repeat a (level, declaration, request) triple. Multi-operation sweep (handler level): every ordered pair (thorough: also every ordered triple of the first six) of the colliding declaration alphabet per location as operations of ONE API, rebuilt the stated number of times; every request of the shared request alphabet to every operation, alone and as the second of two (third of three) consecutive requests to different operations on one handler instance, must give exactly the result of a fresh single-operation API of that operation's own declaration, which is itself judged by the reference; each such request is one non-trivial evaluation", true)
 }
 
 // quickHandlerSlice: the declarations that also go through the full handler
